@@ -390,9 +390,20 @@ type c01Expect struct {
 	toLocal, toRemote, anchorOwner, anchorOther []byte
 }
 
+// The expectations below are written against the API of package input: in the
+// ideal world these calls are the uninterpreted builders above, natively they
+// are the real ones.
 func c01P2WSH(script []byte, _ error) []byte {
-	h, _ := c01WitnessScriptHash(script)
+	h, _ := input.WitnessScriptHash(script)
 	return h
+}
+
+func c01TapOpts(ct uint64) []input.TaprootScriptOpt {
+	var opts []input.TaprootScriptOpt
+	if ct&c01BitTapFinal != 0 {
+		opts = append(opts, input.WithProdScripts())
+	}
+	return opts
 }
 
 func c01ExpectScripts(s *c01TxScn) c01Expect {
@@ -400,47 +411,45 @@ func c01ExpectScripts(s *c01TxScn) c01Expect {
 	X := s.chain
 	ownerIsOpener := s.opener == X
 	taproot := s.ct&c01BitTaproot != 0
-	final := s.ct&c01BitTapFinal != 0
 	anchors := s.ct&c01BitAnchors != 0
 	lease := s.ct&(1<<6) != 0
-	nopts := byte(0)
-	if final {
-		nopts = 1
-	}
+	opts := c01TapOpts(s.ct)
+	delay, pay, revoke := c01Keys[c01KDelay], c01Keys[c01KPay], c01Keys[c01KRevoke]
 	// the owner's to_local output is delayed by the to_self_delay the
 	// OTHER party asked for, which lnd stores in the owner's own config
 	csv := uint32(s.csv[X])
 	fund := [2]*btcec.PublicKey{c01Keys[c01KFundA], c01Keys[c01KFundB]}
 	switch {
 	case taproot:
-		e.toLocal = vHash("PayToTaprootScript", 34, vHash("NewLocalCommitScriptTree", 32, c01U32(csv),
-			c01KB(c01Keys[c01KDelay]), c01KB(c01Keys[c01KRevoke]), []byte{nopts}))
+		t, _ := input.NewLocalCommitScriptTree(csv, delay, revoke, input.NoneTapLeaf(), opts...)
+		e.toLocal = t.PkScript()
 	case lease && ownerIsOpener:
-		e.toLocal = c01P2WSH(c01LeaseCommitScriptToSelf(c01Keys[c01KDelay], c01Keys[c01KRevoke], csv, s.thaw))
+		// script-enforced lease: every output paying the OPENER is
+		// additionally locked until the lease expires
+		e.toLocal = c01P2WSH(input.LeaseCommitScriptToSelf(delay, revoke, csv, s.thaw))
 	default:
-		e.toLocal = c01P2WSH(c01CommitScriptToSelf(csv, c01Keys[c01KDelay], c01Keys[c01KRevoke]))
+		e.toLocal = c01P2WSH(input.CommitScriptToSelf(csv, delay, revoke))
 	}
 	switch {
 	case lease && !ownerIsOpener:
-		// script-enforced lease: every output paying the OPENER is
-		// additionally locked until the lease expires; to_remote pays the
-		// opener iff the owner is not the opener
-		e.toRemote = c01P2WSH(c01LeaseCommitScriptToRemoteConfirmed(c01Keys[c01KPay], s.thaw))
+		// to_remote pays the opener iff the owner is not the opener
+		e.toRemote = c01P2WSH(input.LeaseCommitScriptToRemoteConfirmed(pay, s.thaw))
 	case taproot:
-		e.toRemote = vHash("PayToTaprootScript", 34, vHash("NewRemoteCommitScriptTree", 32,
-			c01KB(c01Keys[c01KPay]), []byte{nopts}))
+		t, _ := input.NewRemoteCommitScriptTree(pay, input.NoneTapLeaf(), opts...)
+		e.toRemote = t.PkScript()
 	case anchors:
-		e.toRemote = c01P2WSH(c01CommitScriptToRemoteConfirmed(c01Keys[c01KPay]))
+		e.toRemote = c01P2WSH(input.CommitScriptToRemoteConfirmed(pay))
 	default:
-		e.toRemote, _ = c01CommitScriptUnencumbered(c01Keys[c01KPay])
+		e.toRemote, _ = input.CommitScriptUnencumbered(pay)
 	}
 	if taproot {
 		// taproot anchors: keyed by the to_local / to_remote keys
-		e.anchorOwner = vHash("PayToTaprootScript", 34, vHash("NewAnchorScriptTree", 32, c01KB(c01Keys[c01KDelay])))
-		e.anchorOther = vHash("PayToTaprootScript", 34, vHash("NewAnchorScriptTree", 32, c01KB(c01Keys[c01KPay])))
+		a1, _ := input.NewAnchorScriptTree(delay)
+		a2, _ := input.NewAnchorScriptTree(pay)
+		e.anchorOwner, e.anchorOther = a1.PkScript(), a2.PkScript()
 	} else if anchors {
-		e.anchorOwner = c01P2WSH(c01CommitScriptAnchor(fund[X]))
-		e.anchorOther = c01P2WSH(c01CommitScriptAnchor(fund[1-X]))
+		e.anchorOwner = c01P2WSH(input.CommitScriptAnchor(fund[X]))
+		e.anchorOther = c01P2WSH(input.CommitScriptAnchor(fund[1-X]))
 	}
 	return e
 }
@@ -453,24 +462,26 @@ func c01ExpectHtlcScript(s *c01TxScn, q int, h *c01Htlc) []byte {
 	if q == 1 {
 		sender, receiver = receiver, sender
 	}
+	revoke := c01Keys[c01KRevoke]
 	taproot := s.ct&c01BitTaproot != 0
 	confirmed := s.ct&c01BitAnchors != 0
-	nopts := byte(0)
-	if s.ct&c01BitTapFinal != 0 {
-		nopts = 1
-	}
+	opts := c01TapOpts(s.ct)
 	offered := q == s.chain
+	// the taproot builders record (for signing purposes only) whether the
+	// caller looks at its own commitment; the output script does not depend
+	// on it
+	whose := lntypes.Local
 	switch {
 	case taproot && offered:
-		return vHash("PayToTaprootScript", 34, vHash("SenderHTLCScriptTaproot", 32, c01KB(sender), c01KB(receiver),
-			c01KB(c01Keys[c01KRevoke]), h.hash[:], []byte{nopts}))
+		t, _ := input.SenderHTLCScriptTaproot(sender, receiver, revoke, h.hash[:], whose, input.NoneTapLeaf(), opts...)
+		return t.PkScript()
 	case taproot:
-		return vHash("PayToTaprootScript", 34, vHash("ReceiverHTLCScriptTaproot", 32, c01U32(h.timeout), c01KB(sender),
-			c01KB(receiver), c01KB(c01Keys[c01KRevoke]), h.hash[:], []byte{nopts}))
+		t, _ := input.ReceiverHTLCScriptTaproot(h.timeout, sender, receiver, revoke, h.hash[:], whose, input.NoneTapLeaf(), opts...)
+		return t.PkScript()
 	case offered:
-		return c01P2WSH(c01SenderHTLCScript(sender, receiver, c01Keys[c01KRevoke], h.hash[:], confirmed))
+		return c01P2WSH(input.SenderHTLCScript(sender, receiver, revoke, h.hash[:], confirmed))
 	default:
-		return c01P2WSH(c01ReceiverHTLCScript(h.timeout, sender, receiver, c01Keys[c01KRevoke], h.hash[:], confirmed))
+		return c01P2WSH(input.ReceiverHTLCScript(h.timeout, sender, receiver, revoke, h.hash[:], confirmed))
 	}
 }
 
